@@ -84,7 +84,7 @@ theorem lcons_post {ctx : Ctx κ} {nm : Name} {n : Node κ} {r : List (Name × N
   obtain ⟨s2, hcr, hc2, hle2, hh2, hback2⟩ := hr ch old s1 strat
     (fun e he => hfind e (by simp [he])) (HoldsList.mono hle1 r _ hh.2) hc1
   refine ⟨s2, ?_, hc2, Store.le_trans hle1 hle2, ?_, ?_⟩
-  · simp [linkedList, commitEntries, hnm, hf, hcn, hcr, childrenOf]
+  · simp [linkedList, commitEntries, hnm, hf, linked_isDir, hcn, hcr, childrenOf]
   · simp only [HoldsList]
     exact ⟨HoldsNode.mono hle2 n _ nm hh1, hh2⟩
   · intro h
